@@ -85,6 +85,7 @@ class Run:
         self.seam = world.setup_frontend()
         install_observers()
         world.wipe_sse()
+        world.restore_repo_state()
         world.seed_randomness(seed)
         net = knobs.get("net") or {}
         self.sim = Sim(net_seed=core.h64(seed, "net"), net=net)
